@@ -182,7 +182,7 @@ func (h *hist) settle() bool {
 			}
 			gid := int(atomic.LoadInt32(&s.gid))
 			g := d[gid]
-			if gid == 0 || g == nil || g.State != "chan receive" || !strings.Contains(g.Text, fCall) {
+			if gid == 0 || g == nil || !waitingInCall(g) {
 				ok = false
 			}
 		}
@@ -213,6 +213,13 @@ func (r *rec) sx() Sx {
 		return List(Int(-8), Int(0), ListOf(l))
 	}
 	return List(Int(r.a), Int(r.b), ListOf(l))
+}
+
+// waitingInCall: the goroutine is a blocking caller waiting for its completion - parked in a channel
+// receive (or a select) directly inside RpcClient.Call, past makeCall
+func waitingInCall(g *GInfo) bool {
+	return g != nil && (g.State == "chan receive" || g.State == "select") && strings.Contains(g.Text, fCall) &&
+		!strings.Contains(g.Text, "makeCall")
 }
 
 // lockCalledByClient: the innermost frame below the sync/runtime frames belongs to the RPC client,
@@ -273,7 +280,7 @@ func (h *hist) watch(done chan struct{}, ownerGid *int32) (stuck, slow bool) {
 				continue
 			}
 			sg := d[int(atomic.LoadInt32(&s.gid))]
-			if sg == nil || sg.State != "chan receive" || !strings.Contains(sg.Text, fCall) || strings.Contains(sg.Text, "makeCall") {
+			if sg == nil || !waitingInCall(sg) {
 				others = false
 			}
 		}
@@ -478,6 +485,10 @@ func run(in Sx) Sx {
 			return List(Int(-2), Int(code), Str(what))
 		}
 		return List(Int(-2), Int(code), Str(what))
+	}
+	if in.Len() == 3 && in.At(1).Kind == 'i' && in.At(0).AsInt() == 8 { // (8 trials seed): responses racing the caller's park
+		code, what := syncRace(in.At(1).AsInt(), in.At(2).Uint64())
+		return List(Int(-7), Int(code), Str(what))
 	}
 	if in.Len() == 3 && in.At(1).Kind == 'i' && in.At(0).AsInt() == 6 { // (6 n seed): time-to-live at sub-second resolution
 		code, what := ttlEdges(in.At(1).AsInt(), in.At(2).Uint64())
@@ -1010,13 +1021,133 @@ func reaperRun(seed uint64) (int64, string) {
 	if err := cli.Dispatch(packet.New(msgID, b, fatchoy.PFlagRpc, body)); err != nil || atomic.LoadInt32(&bCount) != 1 || atomic.LoadInt32(&bCode) != 0 {
 		return 3, "the response to the other call was not delivered"
 	}
+	// two more calls are outstanding when the client's context is cancelled: cancelling ends the
+	// reaper goroutine and nothing else - the calls are completed by their response / a later sweep,
+	// exactly once, not by the cancellation
+	var cGid, cBack, cCode, dCount, dCode int32
+	var cRid int64
+	go func() {
+		atomic.StoreInt32(&cGid, int32(Goid()))
+		ctx := cli.Call(node, wrapperspb.String("q"))
+		atomic.StoreInt32(&cCode, ctx.VerifAck().Errno())
+		if msg, err := ctx.DecodeAck(); err == nil {
+			atomic.StoreInt64(&cRid, ridOf(msg))
+		}
+		atomic.AddInt32(&cBack, 1)
+	}()
+	cSeq := (<-cli.PendingQueue()).Seq()
+	cli.AsyncCall(node, wrapperspb.String("q"), func(m proto.Message, code int32) error {
+		atomic.AddInt32(&dCount, 1)
+		atomic.StoreInt32(&dCode, code)
+		return nil
+	})
+	dSeq := (<-cli.PendingQueue()).Seq()
 	cancel()
 	for dl := time.Now().Add(5 * time.Second); count() > before; time.Sleep(10 * time.Millisecond) {
 		if time.Now().After(dl) {
 			return 7, "the reaper goroutine is still there 5 s after its context was cancelled"
 		}
 	}
-	atomic.AddInt64(&fullChecked, 4)
+	// the reaper is gone; the blocking caller must still be waiting (parked in Call's receive)
+	if waitBackOrParked(&cBack, &cGid) && atomic.LoadInt32(&cBack) != 0 {
+		return 7, "a blocking Call outstanding when the client's context was cancelled was released (code " + strconv.Itoa(int(atomic.LoadInt32(&cCode))) + ") by neither its response nor a time-out"
+	}
+	if atomic.LoadInt32(&dCount) != 0 {
+		return 7, "an asynchronous call outstanding when the client's context was cancelled was completed by the cancellation"
+	}
+	body2, _ := proto.Marshal(wrapperspb.String("r2"))
+	if err := cli.Dispatch(packet.New(msgID, cSeq, fatchoy.PFlagRpc, body2)); err != nil {
+		return 3, "after the cancellation the response to the outstanding blocking call is unmatched"
+	}
+	for dl := time.Now().Add(5 * time.Second); atomic.LoadInt32(&cBack) == 0; time.Sleep(time.Millisecond) {
+		if time.Now().After(dl) {
+			return 9, "the blocking caller did not come back after its response"
+		}
+	}
+	if atomic.LoadInt32(&cBack) != 1 || atomic.LoadInt32(&cCode) != 0 || atomic.LoadInt64(&cRid) != 2 {
+		return 3, "after the cancellation the blocking call was not released once with its own reply"
+	}
+	cli.VerifSetDeadline(dSeq, time.Now().Add(-time.Second))
+	cli.VerifSweep(time.Now())
+	if n := cli.ReapTimeout(); n != 1 || atomic.LoadInt32(&dCount) != 1 || atomic.LoadInt32(&dCode) != int32(codes.RequestTimeout) {
+		return 5, "after the cancellation the overdue asynchronous call was not completed once with RequestTimeout"
+	}
+	if cli.Dispatch(packet.New(msgID, cSeq, fatchoy.PFlagRpc, body2)) == nil || cli.Dispatch(packet.New(msgID, dSeq, fatchoy.PFlagRpc, body2)) == nil {
+		return 7, "a duplicate / late response after the cancellation was matched"
+	}
+	atomic.AddInt64(&fullChecked, 8)
+	return 0, ""
+}
+
+// waitBackOrParked waits until the goroutine has set *back, or is parked in Call's channel receive
+// (goroutine dump, seen three times 30 ms apart).  false = parked for good.
+func waitBackOrParked(back, gid *int32) bool {
+	deadline := time.Now().Add(10 * time.Second)
+	for pause := 50 * time.Microsecond; ; {
+		if atomic.LoadInt32(back) != 0 {
+			return true
+		}
+		if time.Now().After(deadline) {
+			return true // inconclusive: the caller decides
+		}
+		time.Sleep(pause)
+		if pause < 5*time.Millisecond {
+			pause *= 2
+			continue
+		}
+		parked := 0
+		for k := 0; k < 3; k++ {
+			g := GDump()[int(atomic.LoadInt32(gid))]
+			if g != nil && waitingInCall(g) && atomic.LoadInt32(back) == 0 {
+				parked++
+			}
+			time.Sleep(30 * time.Millisecond)
+		}
+		if parked == 3 && atomic.LoadInt32(back) == 0 {
+			return false
+		}
+	}
+}
+
+// syncRace: a responder answers a blocking Call the moment its request appears on the queue - the
+// completion may arrive before the caller has reached its receive; the caller must be released with
+// that reply all the same.
+// returns 0 ok | 3 released with something else | 12 never released (parked in Call, entry gone) | 9 inconclusive
+func syncRace(trials int, seed uint64) (int64, string) {
+	cli := qnet.NewRpcClient(context.Background(), 0)
+	cli.VerifSetCounter(uint16(seed))
+	for tr := 0; tr < trials; tr++ {
+		var gid, back, code int32
+		var rid int64
+		go func() {
+			atomic.StoreInt32(&gid, int32(Goid()))
+			ctx := cli.Call(node, wrapperspb.String("q"))
+			ack := ctx.VerifAck()
+			atomic.StoreInt32(&code, ack.Errno())
+			if msg, err := ctx.DecodeAck(); err == nil {
+				atomic.StoreInt64(&rid, ridOf(msg))
+			}
+			atomic.StoreInt32(&back, 1)
+		}()
+		p := <-cli.PendingQueue() // the caller is inside makeCall; it has not reached its receive yet
+		body, _ := proto.Marshal(wrapperspb.String("r" + strconv.Itoa(tr)))
+		if err := cli.Dispatch(packet.New(msgID, p.Seq(), fatchoy.PFlagRpc, body)); err != nil {
+			return 3, "trial " + strconv.Itoa(tr) + ": the response to the call just queued is unmatched"
+		}
+		atomic.AddInt64(&fullChecked, 1)
+		if !waitBackOrParked(&back, &gid) {
+			if seqs, _ := cli.VerifPending(); len(seqs) == 0 {
+				return 12, "trial " + strconv.Itoa(tr) + ": the response was dispatched (entry gone) before the blocking caller reached its receive: the caller is never released (goroutine dump: parked in Call's receive)"
+			}
+			return 9, "caller parked but its entry is still pending"
+		}
+		if atomic.LoadInt32(&back) == 0 {
+			return 9, "the caller neither returned nor parked"
+		}
+		if atomic.LoadInt32(&code) != 0 || atomic.LoadInt64(&rid) != int64(tr) {
+			return 3, "trial " + strconv.Itoa(tr) + ": the blocking caller was not released with its own reply"
+		}
+	}
 	return 0, ""
 }
 
@@ -1069,6 +1200,25 @@ func fullTable(c0 uint16) (code int64, what string) {
 	checked++
 	if completions[65540] != 1 || codesSeen[65540] != int32(codes.ResourceExhausted) {
 		return 5, "table full: the retry issued from the refused call's callback was not completed once with ResourceExhausted"
+	}
+	// a BLOCKING call is refused the same way: it must come back at once, released with the refusal
+	{
+		var gid, back, code int32
+		go func() {
+			atomic.StoreInt32(&gid, int32(Goid()))
+			ctx := cli.Call(node, wrapperspb.String("q"))
+			atomic.StoreInt32(&code, ctx.VerifAck().Errno())
+			atomic.StoreInt32(&back, 1)
+		}()
+		if !waitBackOrParked(&back, &gid) {
+			return 12, "table full: the refused blocking Call never returns (goroutine dump: parked in Call's receive, nothing can release it)"
+		}
+		if atomic.LoadInt32(&back) == 1 && atomic.LoadInt32(&code) != int32(codes.ResourceExhausted) {
+			return 5, "table full: the refused blocking Call was released with code " + strconv.Itoa(int(atomic.LoadInt32(&code)))
+		}
+		if atomic.LoadInt32(&back) == 0 {
+			return 9, "the refused blocking Call neither returned nor parked"
+		}
 	}
 	select {
 	case p := <-cli.PendingQueue():
@@ -1513,6 +1663,9 @@ func gen(a Args, out *Out) {
 		in := Ints(6, 6, int64(r7.Intn(1<<30)))
 		if wantKind("ttl") {
 			out.Case("ttl", true, in, run(in))
+		}
+		if in2 := Ints(8, 1500, int64(r7.Intn(1<<30))); wantKind("syncrace") {
+			out.Case("syncrace", true, in2, run(in2))
 		}
 	}
 	r4 := rng.Fork()
